@@ -414,6 +414,14 @@ def run_shard(ctx, spec):
                         for m in (mults if gs in ('m', 'f') else mults[2:5]):
                             p = best * m
                             attach.call(a.wma_age_grade, gs, age, e2, p, year=y)
+                        if gs in ('m', 'f') and isinstance(age, int) and age % 5 == 0:
+                            # the verbose flag prints, it must not change what is returned
+                            import contextlib
+                            import io
+                            with contextlib.redirect_stdout(io.StringIO()):
+                                attach.call(a.wma_age_grade, gs, age, e2, best * 1.1, verbose=True, year=y)
+                                attach.call(a.wma_age_grade, gs, age, e2, best * 1.1, True, y)
+                            ctx.count('eval.verbose-calls')
                         if timed and gs in ('m', 'f') and best >= 60:
                             mm, ss = divmod(round(best * 1.05, 2), 60)
                             attach.call(a.wma_age_grade, gs, age, e2, '%d:%05.2f' % (mm, ss), year=y)
